@@ -119,6 +119,7 @@ def check(ctx):
     for i in failed[:3]:
         ctx.broken("correspondence:interp1d", {"case": meta[i], "coq": cases[i][:1500]})
     oracle(ctx)
+    batched_unsorted_probe(ctx)
 
 
 def oracle(ctx):
@@ -254,6 +255,21 @@ def oracle(ctx):
                 if not torch.allclose(first_call, r0, rtol=1e-9, atol=1e-10) or not torch.allclose(second_call, fresh, rtol=1e-9, atol=1e-10):
                     ctx.fail("oracle", "interp:y-at-call:reused-object-after-in-place-update:%s:%s" % (method, bc), info,
                              {"second_call": second_call.tolist(), "fresh_interpolator": fresh.tolist()}, "the interpolant of the y given at the call")
+                # mirror / periodic far outside the range, on both sides (round-4 seed C14/11: the mirror map was wrong only for
+                # queries one to two, or three to four, range lengths to the LEFT of xmin)
+                for off in (-3.4, -2.6, -1.3, -0.7, 1.2, 2.45, 3.7):
+                    qf = torch.tensor([xs[0] + off * span if off < 0 else xs[-1] + off * span], dtype=DT)
+                    u = (float(qf[0]) - xs[0]) / span                 # position in units of the range, 0..1 inside
+                    k_ = math.floor(u)
+                    um = u - k_ if k_ % 2 == 0 else 1.0 - (u - k_)        # reflected back into [0, 1]
+                    up = u - k_                                           # periodic image
+                    for ex, uu in (("mirror", um), ("periodic", up)):
+                        if ex == "periodic" and not abs(float(yy[0] - yy[-1])) <= 1e-12:
+                            continue
+                        want_f = f(torch.tensor([xs[0] + uu * span], dtype=DT))
+                        got_f = Interp1D(x, yy, method=method, extrap=ex, **kw)(qf)
+                        if not torch.allclose(got_f, want_f, rtol=1e-7, atol=1e-8 * (float(yy.abs().max()) + 1)):
+                            ctx.fail("oracle", "interp:extrap-far:%s:%s" % (ex, method), dict(info, query_in_range_units=u), got_f, want_f)
                 cb = Interp1D(x, yy, method=method, extrap=lambda q: q * 2, **kw)(out_q)
                 if not torch.allclose(cb[:2], out_q[:2] * 2):
                     ctx.fail("oracle", "interp:extrap:callable:%s" % method, info, cb, out_q[:2] * 2)
@@ -273,6 +289,34 @@ def oracle(ctx):
                 gq, fd = gq[away], fd[away]
                 if not torch.allclose(gq, fd, rtol=1e-4, atol=1e-5 * (float(yy.abs().max()) + 1) / min(xs[j + 1] - xs[j] for j in range(n - 1))):
                     ctx.fail("oracle", "interp:grad-xq:%s:%s" % (method, bc), info, gq, fd)
+
+
+def batched_unsorted_probe(ctx):
+    """x given as a BATCH of differently ordered grids, y batched likewise, supplied at construction or at call time: every row is
+    the interpolant of its own samples (round-4 seed C14/10: the re-ordering of a call-time y indexed all rows with all
+    permutations)"""
+    from xitorch.interpolate import Interp1D
+    g = torch.Generator().manual_seed(ctx.seed + 17)
+    for method, kw in (("linear", {}), ("cspline", {"bc_type": "natural"}), ("cspline", {"bc_type": "not-a-knot"})):
+        for nb, n in ((2, 5), (3, 7)):
+            xs_sorted = torch.cumsum(torch.rand(nb, n, dtype=DT, generator=g) + 0.2, dim=-1)
+            perms = torch.stack([torch.randperm(n, generator=g) for _ in range(nb)])
+            x = torch.gather(xs_sorted, -1, perms)
+            y_sorted = torch.randn(nb, n, dtype=DT, generator=g)
+            y = torch.gather(y_sorted, -1, perms)
+            lo, hi = xs_sorted[:, :1].max(), xs_sorted[:, -1:].min()
+            q = lo + (hi - lo) * torch.rand(4, dtype=DT, generator=g)
+            ref = torch.stack([Interp1D(xs_sorted[i], y_sorted[i], method=method, **kw)(q) for i in range(nb)])
+            info = {"method": method, "bc": kw.get("bc_type"), "batch": nb, "n": n}
+            ctx.count(("batched-unsorted", method, kw.get("bc_type"), nb, n))
+            for name, call in (("y-at-construction", lambda: Interp1D(x, y, method=method, **kw)(q)), ("y-at-call", lambda: Interp1D(x, method=method, **kw)(q, y))):
+                try:
+                    got = call()
+                except Exception as e:
+                    ctx.fail("oracle", "interp:batched-unsorted-x:%s:exception" % name, info, repr(e)[:200], "one interpolant per row")
+                    continue
+                if got.shape != ref.shape or not torch.allclose(got, ref, rtol=1e-9, atol=1e-10):
+                    ctx.fail("oracle", "interp:batched-unsorted-x:%s" % name, info, {"shape": list(got.shape)}, {"shape": list(ref.shape)})
 
 
 def search(ctx):
